@@ -411,7 +411,8 @@ def one_run(spec, rng, res, model, gitdir, d, sel, roots):
     def add(facet, item):
         F.setdefault(facet, []).append(item)
 
-    ctx = {"argv": argv, "repo_seed": [spec["seed"], spec["idx"], spec.get("profile")], "permuted": plan is not None}
+    ctx = {"argv": argv, "repo_seed": [spec["seed"], spec["idx"], spec.get("profile")], "permuted": plan is not None,
+           "tree_roots": [sp for sp, o in roots if o.kind == "tree"] + [n for n, o in model.refs.items() if o.kind == "tree"]}
     if r.timed_out:
         add("hang", ("watchdog", "", dict(ctx, stderr=r.err[-3000:])))
         return
